@@ -745,6 +745,107 @@ def rule_statement_in_challenge(ctx, cfg='prod-all', rule='RF-C', skip=(), only=
     yield Ob(rule, 'cl03#fs-verifiers', n >= 2, 'Fiat-Shamir verifiers examined', '', fact=n, expected='>= 2', nontrivial=False)
 
 
+def rule_whole_proof_anchor(ctx, cfg='prod-all', rule='RF-C'):
+    """The larger-interval sub-proofs of Boudot's range proof hash, besides their own commitment, the commitment E the *whole* range proof is
+    about: that is what ties them to E (their own commitments are derived ones, and E' = E^(2^T) is the same for E and for n - E when T >= 1).
+    The ingredient is a parameter that is only hashed.  Decided on the call chains: from the two larger-interval functions the parameter is
+    followed upwards through callers that hand their own parameter on unchanged; where a caller hands over something else, on the verifier
+    side it has to be the field `E` of the range proof itself, and on the prover side the function that builds the range proof stores that same
+    parameter as its `E`.  (A derived value such as E' in that place re-opens the substitution E -> n - E.)"""
+    from rf_consts import _trace_identity
+    from flow import _array_literal_of
+    prog, eng = ctx.prog(cfg), ctx.eng(cfg)
+    ADT = 'Boudot2000RangeProof'
+
+    def hashed_only_params(fn):
+        b = prog.bodies[fn]
+        fd = eng.fndep(fn)
+        hashed, used = set(), set()
+        for bb in [b] + list(prog.closures_of(fn)):
+            bfd = eng.fndep(bb.path)
+            for bi, t in bb.calls():
+                tgt = local_target(eng, t)
+                helper = tgt is not None and tgt in prog.bodies and any((t2.get('callee') or '').endswith(TEXT_CALLS)
+                                                                          for b2 in [prog.bodies[tgt]] + list(prog.closures_of(tgt)) for _b, t2 in b2.calls())
+                is_text = (t.get('callee') or '').endswith(TEXT_CALLS)
+                for a in t['args']:
+                    ops = [a]
+                    if helper:
+                        ops = list(_array_literal_of(bfd, a) or [a])
+                    for o in ops:
+                        if o.get('k') not in ('copy', 'move'):
+                            continue
+                        root, path = bfd.resolve_place(o['pl'])
+                        if bb is not b or not bfd.is_param(root):
+                            continue
+                        if (helper or is_text) and not path:
+                            hashed.add(root)
+                        else:
+                            used.add(root)      # an operand of a computation (directly: what is computed from the hash does not count)
+        return sorted(k for k in hashed if k not in used and b.local_ty(k).lstrip('&').strip().endswith('rug::Integer'))
+
+    callers = {}
+    for p, b in prog.bodies.items():
+        if not p.startswith('cl03::range_proof::') or b.kind == 'Closure':
+            continue
+        for bi, t in b.calls():
+            tgt = local_target(eng, t)
+            if tgt:
+                callers.setdefault(tgt, []).append((b, bi, t))
+    n = 0
+    for leaf, side in ((RP + 'verify_large_interval_specific', 'verifier'), (RP + 'proof_large_interval_specific', 'prover')):
+        if leaf not in prog.bodies:
+            raise AnchorMissing(leaf)
+        anchors = hashed_only_params(leaf)
+        yield Ob(rule, '%s#whole-proof-ingredient' % leaf, len(anchors) >= 1,
+                 'the challenge of the larger-interval sub-proof has an ingredient that is only hashed (the commitment the whole range proof is about)',
+                 prog.bodies[leaf].span, fact={'parameters_only_hashed': [prog.bodies[leaf].local_name(k) for k in anchors]}, expected='>= 1')
+        S = {(leaf, k) for k in anchors}
+        work = list(S)
+        tops = []
+        while work:
+            fn, k = work.pop()
+            for (cb, bi, t) in callers.get(fn, []):
+                if k - 1 >= len(t['args']):
+                    continue
+                cfd = eng.fndep(cb.path)
+                pk, chain, why = _trace_identity(cfd, cb, t['args'][k - 1])
+                if pk is not None:
+                    if (cb.path, pk) not in S:
+                        S.add((cb.path, pk))
+                        work.append((cb.path, pk))
+                else:
+                    tops.append((cb, cfd, bi, t, t['args'][k - 1], why))
+        if side == 'verifier':
+            for (cb, cfd, bi, t, arg, why) in tops:
+                n += 1
+                ok, got = False, why
+                if arg['k'] in ('copy', 'move'):
+                    root, path = cfd.resolve_place(arg['pl'])
+                    got = '%s%s' % (cb.local_name(root), ''.join('.' + x for x in path))
+                    ok = cfd.is_param(root) and cb.local_ty(root).lstrip('&').strip().endswith(ADT) and tuple(path) == ('E',)
+                yield Ob(rule, '%s#whole-proof-commitment' % cb.path, ok,
+                         'what the larger-interval challenges are bound to is the commitment E of the range proof itself (not a value derived from it)',
+                         '%s L%s' % (cb.file(), t.get('line')), fact={'handed_over': got}, expected='self.E')
+        else:
+            # the function that builds the range proof stores, as E, the parameter that is handed down
+            for p, b in sorted(prog.bodies.items()):
+                if not p.startswith('cl03::range_proof::') or b.kind == 'Closure':
+                    continue
+                fd = eng.fndep(p)
+                for bi, st in b.stmts():
+                    if st['k'] == 'assign' and st['rv']['k'] == 'agg' and st['rv'].get('ak') == 'adt' and st['rv']['name'].endswith(ADT) and 'E' in [str(f) for f in st['rv'].get('fields', [])]:
+                        o = st['rv']['ops'][[str(f) for f in st['rv']['fields']].index('E')]
+                        pk, chain, why = _trace_identity(fd, b, o)
+                        n += 1
+                        yield Ob(rule, '%s#whole-proof-commitment' % p, pk is not None and (p, pk) in S,
+                                 'the commitment stored as E of the range proof is the value the larger-interval challenges are bound to',
+                                 '%s L%s' % (b.file(), st.get('line')), fact={'E_is_parameter': b.local_name(pk) if pk else why,
+                                                                               'handed_down_unchanged': sorted(b.local_name(k) for (f_, k) in S if f_ == p)},
+                                 expected='the same parameter')
+    yield Ob(rule, 'cl03#whole-proof-anchor', n >= 2, 'places where the whole-proof commitment enters the larger-interval challenges', '', fact=n, expected='>= 2', nontrivial=False)
+
+
 # ---------------------------------------------------------------------------------- list fields have the expected number of entries
 def vec_field_paths(prog, root, max_depth=6):
     """paths of the list-typed (Vec) fields of a serialised proof type, not descending into the elements of a list"""
@@ -802,9 +903,11 @@ def rule_list_fields_counted(ctx, specs, cfg='prod-all', rule='RF-K'):
             optional = _crosses_option(prog, root, vp)
             for ap in aps:
                 ok = False
+                ordered = set()
                 for g in ap['gates']:
                     if g.kind == 'deleg' or not gate_is_comparison(g) or not (g.dom is True or optional):
                         continue      # (a part of the proof that is present only in one mode of use is examined in that mode only)
+                    hit = False
                     for a in g.all_atoms():
                         if a[0] not in ('len', 'narrow'):
                             continue
@@ -812,7 +915,19 @@ def rule_list_fields_counted(ctx, specs, cfg='prod-all', rule='RF-K'):
                         if st[0] == 'p' and st[1] == kself:
                             q = tuple(x for x in st[2] if x != '0')
                             if q and q == vp[:len(q)]:
-                                ok = True
+                                hit = True
+                    if not hit:
+                        continue
+                    # the number of entries has to be *the* number the statement requires: an equality (or a pair of order comparisons);
+                    # `needed > given` alone lets surplus entries through, `needed < given` alone missing ones
+                    if g.kind == 'cmp' and g.what in ('Lt', 'Le', 'Gt', 'Ge') or (g.kind == 'call' and ('PartialOrd::' in (g.what or '') or 'Ord::cmp' in (g.what or ''))):
+                        ordered.add((g.fn, g.block, g.line, g.what))
+                        if len(ordered) >= 2:
+                            ok = True
+                    elif g.kind == 'cmp' and ((g.what == 'Eq' and g.truth is False) or (g.what == 'Ne' and g.truth is True)):
+                        pass          # reached when the lengths differ
+                    else:
+                        ok = True
                     if ok:
                         break
                 if not ok:
@@ -868,6 +983,24 @@ def _crosses_vec(prog, root, lp):
     return False
 
 
+def _order_sides(g, kself):
+    """(bounds from below, bounds from above) for a comparison that orders its operands (`<`, `>=`, cmp, cmp_abs, a sign test), None for
+    the others.  Below: against 0 or by a sign test.  Above: against something that is not part of the proof and not 0 (a modulus, a power)."""
+    w = g.what or ''
+    sign_test = w.endswith(('::cmp0', '::is_negative', '::is_positive', '::signum'))
+    is_order = (g.kind == 'cmp' and g.what in ('Lt', 'Le', 'Gt', 'Ge')) or sign_test or w.endswith(('::cmp_abs', 'Range<Idx>::contains', 'RangeBounds::contains')) \
+        or 'PartialOrd::' in w or 'Ord::cmp' in w
+    if not is_order:
+        return None
+    atoms = g.all_atoms()
+
+    def is_zero(a):
+        return a[0] == 'c' and str(a[1]).split('_')[0] in ('0', '-1')
+    zero = sign_test or any(is_zero(a) for a in atoms) or any(str(c) in ('0', '-1') for c in (g.const_ops or []))
+    bound = any((strip(a)[0] == 'p' and strip(a)[1] != kself) or strip(a)[0] == 'a' or (a[0] == 'c' and not is_zero(a)) for a in atoms)
+    return (zero, bound)
+
+
 def rule_canonical_representatives(ctx, specs, cfg='prod-all', rule='RF-K', skip=()):
     """A transmitted integer that stands for a residue class (it only ever enters `pow_mod` bases, `% n`, inversions) can be replaced by
     any other representative (x + k*n) unless the verifier also looks at the integer itself.  Per leaf x of the proof / signature type and per
@@ -892,10 +1025,12 @@ def rule_canonical_representatives(ctx, specs, cfg='prod-all', rule='RF-K', skip
         unpinned = {}
         for ap in aps:
             pinned = set()
+            below, above = set(), set()      # leaves an order comparison bounds from below (against 0 / a sign test) and from above (against a modulus ..)
             views = []      # per comparison: the leaves it sees through ring operations only
             for g in ap['gates']:
                 if g.kind == 'deleg' or not gate_is_comparison(g):
                     continue
+                side = _order_sides(g, kself)
                 ring = set()
                 for a in g.all_atoms():
                     lab = label_of(a)
@@ -904,12 +1039,19 @@ def rule_canonical_representatives(ctx, specs, cfg='prod-all', rule='RF-K', skip
                     for lp in _leaf_of(a, kself, leaves):
                         if g.dom is not True and lp not in per_element:
                             continue      # a test on only some of the paths to the accept site (elements of a list are tested inside the loop over the list)
-                        if lab == 'R':
+                        if side is not None and a[0] not in ('h',):
+                            # an order comparison excludes the representatives on one side only: x < N leaves x - N, |x| < N leaves x - N for x > 0
+                            if side[0]:
+                                below.add(lp)
+                            if side[1]:
+                                above.add(lp)
+                        elif lab == 'R':
                             ring.add(lp)
                         else:
                             pinned.add(lp)      # an exponent, a digest input, a conversion: another representative changes the value compared
                 if ring:
                     views.append(ring)
+            pinned |= (below & above)
             # a ring expression: x + k*n can be compensated by shifting another leaf of the same expression, unless that one is pinned
             changed = True
             while changed:
